@@ -426,7 +426,8 @@ def reverse(ck, rng, orc, cap, i):
         if bytes(m.state.id.spi) != spi or bool(m.hard) != bool(hard) or m.state.id.daddr.to_ipaddr(AF[v]) != daddr or m.state.id.proto != proto or m.state.family != AF[v]:
             ck.violation('kernel-expire-decoded-differently', {'spi': bytes(m.state.id.spi), 'hard': m.hard}, case)
     else:
-        err = rng.choice([0, 0, -22, -3, -17, -12, -1, -95])
+        # (errors a newer kernel may answer with and Python has no symbolic name for are errors all the same: 524 ENOTSUPP, 512 ERESTARTSYS, the gaps 41 and 58, 4095)
+        err = rng.choice([0, 0, -22, -3, -17, -12, -1, -95, -524, -512, -41, -58, -4095, -133])
         pid = rng.choice([os.getpid(), 0, 12345, 0xFFFFFFFF, os.getpid() ^ 1])
         cap.sent.clear()
         case = {'kind': 'reply', 'errno': err, 'reply_port_id': pid}
